@@ -35,8 +35,9 @@ import socketserver
 
 logging.disable(logging.CRITICAL)
 
-START, STOP, REQUEST, STOP_BUSY = 0, 1, 2, 4
-OPNAME = {0: "start", 1: "stop", 2: "request", 3: "tick", 4: "stop_while_handler_blocks"}
+START, STOP, REQUEST, STOP_BUSY, START_PORT_TAKEN = 0, 1, 2, 4, 5
+OPNAME = {0: "start", 1: "stop", 2: "request", 3: "tick", 4: "stop_while_handler_blocks",
+          5: "start_while_port_is_taken"}
 
 
 # ============================================================================ real-server histories
@@ -197,6 +198,46 @@ def run_history(kind, h):
                     raised = 1
                 else:
                     expect_running = 1 if o == START else 0
+            elif o == START_PORT_TAKEN:
+                # start() while a foreign socket holds the port: bind fails; the call must raise (unless the server
+                # is already running), release everything it took, and leave the object as it was
+                foreign = None
+                if not expect_running:
+                    typ = real_socket.SOCK_DGRAM if kind == "tftp" else real_socket.SOCK_STREAM
+                    foreign = real_socket.socket(real_socket.AF_INET6, typ)
+                    try:
+                        foreign.bind(("::1", port))
+                        if kind != "tftp":
+                            foreign.listen(1)
+                    except OSError:
+                        # the port is still held (by a socket the server object leaked): the call below meets
+                        # that socket instead of ours; the leak shows in the observations
+                        foreign.close()
+                        foreign = "leaked"
+                done = []
+
+                def call_start():
+                    try:
+                        srv.start()
+                        done.append(0)
+                    except OSError:
+                        done.append(1)
+                    except BaseException:      # noqa
+                        done.append(2)
+                th = threading.Thread(target=call_start, daemon=True)
+                th.start()
+                th.join(5.0)
+                if foreign is not None and foreign != "leaked":
+                    foreign.close()
+                if th.is_alive():
+                    hang = 1
+                    baseline.add(th)
+                elif done and done[0] == 2:
+                    raised = 1
+                else:
+                    served = 1 if (done and done[0] == 1) else 0       # "the call raised OSError"
+                    if foreign is None:
+                        expect_running = 1
             elif o == STOP_BUSY:
                 # stop() while the main thread sits in a request handler: has stop() returned, with the main
                 # thread still alive, before the handler is released (deadline 1.5 s)?
@@ -496,21 +537,57 @@ class _Stream(fake_net.ChunkedStream):
             raise RuntimeError("no fileno today")
         return super().fileno()
 
+    close_raises = False
+
     def close(self):
         self.closes += 1
         super().close()
+        if self.close_raises:
+            raise OSError(5, "Input/output error")      # e.g. a deferred write/flush error reported by close()
+
+
+class _Spin(BaseException):
+    """stops a transfer thread that keeps retrying a failing call for ever (not an Exception: the code under
+    test must not be able to catch it)"""
 
 
 class _Sock(fake_net.FakeSock):
-    def __init__(self, script, clock, log, fail_error_send):
+    """fake transfer socket with fault injection: fault = None | ("send_once", k) | ("send_from", k) |
+    ("recv_err", j): the k-th sendto() raises OSError once / every sendto() from the k-th on raises / the j-th
+    recvfrom() raises OSError"""
+    SPIN_LIMIT = 300
+
+    def __init__(self, script, clock, log, fail_error_send, fault=None):
         super().__init__(script, clock, log)
         self.fail_error_send = fail_error_send
+        self.fault = tuple(fault) if fault else None
+        self.nsend = 0
+        self.nrecv = 0
+        self.nfail = 0
+
+    def _failed(self, err):
+        self.nfail += 1
+        self.log.append(("send_failed",))
+        if self.nfail > self.SPIN_LIMIT:
+            self.log.append(("spin",))
+            raise _Spin()
+        raise err
 
     def sendto(self, data, addr):
+        self.nsend += 1
+        if self.fault and ((self.fault[0] == "send_once" and self.nsend == self.fault[1])
+                           or (self.fault[0] == "send_from" and self.nsend >= self.fault[1])):
+            self._failed(OSError(101, "Network is unreachable"))
         if self.fail_error_send and bytes(data[:2]) == b"\x00\x05" and addr == fake_net.CLI:
-            self.log.append(("send_failed",))
-            raise OSError(101, "Network is unreachable")
+            self._failed(OSError(101, "Network is unreachable"))
         super().sendto(data, addr)
+
+    def recvfrom(self, n):
+        self.nrecv += 1
+        if self.fault and self.fault[0] == "recv_err" and self.nrecv == self.fault[1]:
+            self.log.append(("recv_failed",))
+            raise ConnectionRefusedError(111, "Connection refused")
+        return super().recvfrom(n)
 
 
 def ack(n):
@@ -571,6 +648,7 @@ def run_xfer(c):
             st = _Stream(bytes(8 * 65540), [], None, c["tsize"])
         else:
             st = _Stream(content, [5, 3, 8], 2 if x == "internal" else None, c["tsize"])
+            st.close_raises = bool(c.get("fault") and c["fault"][0] == "close_raises")
         streams.append(st)
         return st
 
@@ -583,7 +661,7 @@ def run_xfer(c):
         if not c["sock_ok"]:
             raise OSError(24, "Too many open files")
         nsock[0] += 1
-        return _Sock(list(script), clock, log, c["send_err_raises"])
+        return _Sock(list(script), clock, log, c["send_err_raises"], c.get("fault"))
     shim.socket = mk
     uncaught = []
     old_hook = threading.excepthook
@@ -625,6 +703,11 @@ def run_xfer(c):
         except Exception:      # noqa  (e.g. BufferError while a buffer export is alive)
             pass
     logexc = len([e for e in log if e[0] == "logexc"])
+    if ("spin",) in log:
+        # the thread kept retrying a failing call and had to be stopped from outside: on its own it would never
+        # have ended nor left its with-blocks
+        ended, closes, fclosed = 0, 0, 0
+    uncaught = [u for u in uncaught if u != "_Spin"]
     return [closes, fclosed, ended, logexc, 1 if uncaught else 0]
 
 
@@ -670,6 +753,11 @@ class C20(Check):
                 for _ in range(16):
                     n = rng.choice([5, 6])
                     yield {"kind": "seq", "srv": kind, "h": [rng.choice((START, STOP, REQUEST, START, STOP)) for _ in range(n)]}
+        # start() while the port is taken by a foreign socket (bind fails), before/after/between the other calls
+        for kind in ("tftp", "http"):
+            for h in ([START_PORT_TAKEN, START, REQUEST, STOP], [START, START_PORT_TAKEN, STOP, START_PORT_TAKEN, START, REQUEST],
+                      [START_PORT_TAKEN, START_PORT_TAKEN, STOP, START, STOP]):
+                yield {"kind": "seq", "srv": kind, "h": h}
         # stop() while a request handler blocks on the main thread (costs ~1.5 s each)
         yield {"kind": "seq", "srv": "tftp", "h": [START, STOP_BUSY]}
         yield {"kind": "seq", "srv": "tftp", "h": [START, REQUEST, STOP_BUSY, START, REQUEST]}
@@ -696,6 +784,19 @@ class C20(Check):
                                 for stream in ("bytesio", "file"):
                                     yield {"kind": "xfer", "sock_ok": so, "hres": hres, "tsize": ts, "xend": x,
                                            "send_err_raises": se, "stream": stream}
+        # faults inside the transfer (client acknowledges everything): the k-th sendto() on the transfer socket
+        # fails once / every sendto() from the k-th on fails (OACK = send 1, DATA blocks = sends 2..4), the j-th
+        # recvfrom() fails, close() of the file raises; in every case the thread must end with socket and file closed
+        base = {"kind": "xfer", "sock_ok": 1, "hres": "file", "tsize": 0, "xend": "completed", "send_err_raises": 0}
+        for k in (1, 2, 3, 4):
+            for stream in ("chunked", "bytesio"):
+                yield dict(base, fault=["send_once", k], stream=stream)
+                yield dict(base, fault=["send_from", k], stream=stream)
+            yield dict(base, fault=["recv_err", k])
+        yield dict(base, fault=["recv_err", 2], stream="file")
+        yield dict(base, fault=["send_from", 3], stream="file")
+        for x in ("completed", "timeout", "clienterror", "invalid"):
+            yield dict(base, xend=x, fault=["close_raises"])
         # concurrent start/stop
         single = [[1], [0]]
         double = [[1, 0], [0, 1]]
@@ -772,7 +873,18 @@ class C20(Check):
             return sx([0, srv, c["h"], obs])
         if c["kind"] == "conc":
             return sx([1, srv, c["pre"], c["ops"], obs])
-        return sx([2, c["sock_ok"], HRES[c["hres"]], c["tsize"], XEND[c["xend"]], c["send_err_raises"], obs])
+        xend, se, cf = c["xend"], c["send_err_raises"], 0
+        f = c.get("fault")
+        if f:
+            # what the fault means for the model: a failing socket call inside the block exchange ends it through
+            # the internal-error path (the final ERROR send fails too when sends keep failing)
+            if f[0] == "send_once" or f[0] == "recv_err":
+                xend, se = "internal", se
+            elif f[0] == "send_from":
+                xend, se = "internal", 1
+            elif f[0] == "close_raises":
+                cf = 1
+        return sx([2, c["sock_ok"], HRES[c["hres"]], c["tsize"], XEND[xend], se, cf, obs])
 
     def canon(self, obs):
         return [list(x) if isinstance(x, (list, tuple)) else x for x in obs]
@@ -786,7 +898,7 @@ class C20(Check):
         if c["kind"] == "conc":
             flat = [o for l in c["ops"] for o in l]
             return ("conc", c["srv"], c["pre"], repr(c["ops"])) if (1 in flat and 0 in flat) else None
-        return ("xfer", self._key(c)) if (c["xend"] != "completed" or c["hres"] != "file" or not c["sock_ok"]
+        return ("xfer", self._key(c)) if (c.get("fault") or c["xend"] != "completed" or c["hres"] != "file" or not c["sock_ok"]
                                           or c["tsize"] or c["send_err_raises"]) else None
 
     def show(self, c):
